@@ -125,12 +125,19 @@ var (
 // searchAll runs every kind of search on m and compares with the reference walk.
 func searchAll(m *diam.Message, app uint32, what string) *ev.Failure {
 	codes := rpCodes[app]
+	// results an application holds on to while it goes on searching the same message
+	type heldResult struct {
+		desc      string
+		got, want []*diam.AVP
+	}
+	var held []heldResult
 	for _, q := range []struct {
 		path []interface{}
 		want []uint32
 	}{{rpPath, []uint32{codes["RP-Group"], codes["RP-Name"]}}, {rpPathOne, []uint32{codes["RP-Name"]}}, {rpPathMix, []uint32{codes["RP-Group"], 2103}}} {
 		got, err := m.FindAVPsWithPath(q.path, dict.UndefinedVendorID)
 		want := twinWalk(m.AVP, q.want)
+		held = append(held, heldResult{fmt.Sprintf("FindAVPsWithPath(%v)", q.want), got, want})
 		if err != nil || !samePtrs(got, want) {
 			return ev.Failf("name-resolved-through-another-message", "%s: FindAVPsWithPath(%v) on a message of application %d (where the names stand for the codes %v) returned %s (err %v); the reference walk finds %s", what, []interface{}{"RP-Group", "RP-Name"}[:len(q.path)], app, q.want, rpDescribe(got), err, rpDescribe(want))
 		}
@@ -138,12 +145,20 @@ func searchAll(m *diam.Message, app uint32, what string) *ev.Failure {
 	for _, name := range rpNameArgs {
 		want := rpAll(m.AVP, codes[name])
 		got, err := m.FindAVPs(name, dict.UndefinedVendorID)
+		held = append(held, heldResult{fmt.Sprintf("FindAVPs(%q)", name), got, want})
 		if err != nil || !samePtrs(got, want) {
 			return ev.Failf("name-resolved-through-another-message", "%s: FindAVPs(%q) on a message of application %d (where the name stands for code %d) returned %s (err %v); the reference walk finds %s", what, name, app, codes[name], rpDescribe(got), err, rpDescribe(want))
 		}
 		one, err := m.FindAVP(name, dict.UndefinedVendorID)
 		if err != nil || one != want[0] {
 			return ev.Failf("name-resolved-through-another-message", "%s: FindAVP(%q) on a message of application %d (where the name stands for code %d) returned %v (err %v); the first such AVP in document order is %v", what, name, app, codes[name], one, err, want[0])
+		}
+	}
+	// "searching for all returns every such AVP in that order": what a search returned stays
+	// that list while the same message is searched again
+	for _, h := range held {
+		if !samePtrs(h.got, h.want) {
+			return ev.Failf("earlier-result-changed-by-a-later-search", "%s: the list that %s returned was right when it was returned; after further searches of the same message it reads %s, the reference walk finds %s", what, h.desc, rpDescribe(h.got), rpDescribe(h.want))
 		}
 	}
 	return nil
